@@ -361,6 +361,25 @@ class C03(Check):
         return plat, None
 
     def impl(self, case):
+        """the real code, with a 3 s alarm per case (a non-terminating expansion is an answer, not a hang)"""
+        import signal
+
+        class _Timeout(BaseException):
+            pass
+
+        def on_alarm(signum, frame):
+            raise _Timeout()
+        old = signal.signal(signal.SIGALRM, on_alarm)
+        signal.setitimer(signal.ITIMER_REAL, 3.0)
+        try:
+            return self._impl(case)
+        except _Timeout:
+            return ["Err", "Timeout"]
+        finally:
+            signal.setitimer(signal.ITIMER_REAL, 0)
+            signal.signal(signal.SIGALRM, old)
+
+    def _impl(self, case):
         pp = _pp()
         plat, err = self.platform(case)
         if err:
@@ -369,12 +388,13 @@ class C03(Check):
             out = pp.MacroExpander(plat).expand(lex(case["input"]))
         except Exception as e:  # noqa
             return ["Err", type(e).__name__]
-        return ["Ok", [canon_tok(t) for t in out]]
+        return ["Ok", [canon_tok(t) for t in out], [1 if t.prev_white else 0 for t in out]]
 
     def model_view(self, case, ans):
         m = ans[0]
         if m[0] == "Ok":
-            return ["Ok", [str(x) for x in m[1]]]
+            # spellings AND prev_white flags are compared between I and M
+            return ["Ok", [str(x) for x in m[1]], [int(x) for x in m[2]]]
         if m[0] == "DefErr":
             return ["DefErr", m[1], m[2]]
         return ["Err", m[1]]
@@ -392,6 +412,12 @@ class C03(Check):
         k = "S:" + (r[0] if r[0] == "Ok" else r[1])
         self.hist[k] = self.hist.get(k, 0) + 1
         return r
+
+    def impl_view_for_spec(self, case, impl_ans):
+        # S is compared on the token spellings only
+        if impl_ans[0] == "Ok":
+            return ["Ok", impl_ans[1]]
+        return impl_ans
 
     def in_domain(self, case, spec_ans):
         return spec_ans is not None and spec_ans[0] == "Ok"
@@ -437,7 +463,7 @@ class C03(Check):
                 return "dashD-value-starts-with-equals"
             return None
         # (0) the 200-level backstop: only tables with at least max_level-1 macros can reach it
-        if impl_ans == ["Ok", ["0"]] and len(ms) >= self.max_level() - 1:
+        if impl_ans[:2] == ["Ok", ["0"]] and len(ms) >= self.max_level() - 1:
             return "depth-limit-200"
         variadic = [m for m in ms if m["params"] and m["params"][-1].endswith("...")]
         hashy = [m for m in ms if m["params"] is not None and "#" in (m["body"] or "")]
@@ -578,7 +604,7 @@ class C03(Check):
                 n += 1
                 if a != [True, False] or b != [False, True]:
                     ia = self.impl(c)
-                    if ia == sa:      # expand agrees with S but the #if route does not
+                    if self.impl_view_for_spec(c, ia) == sa:      # expand agrees with S but the #if route does not
                         bad.append({"case": c, "k": k, "eq": a, "neq": b})
         self.hist["if_route_cases"] = n
         self.hist["if_route_disagreements"] = len(bad)
